@@ -62,7 +62,13 @@ func FromString(p string) (Integrated, error) {
 		return Integrated{}, errors.New("invalid address base36 encoding")
 	}
 
-	data := bigi.Bytes()
+	// big.Int does not keep leading zero bytes (a checksum that starts with 0x00):
+	// String writes each of them as a leading '0' digit
+	zeros := 0
+	for zeros < len(p) && p[zeros] == '0' {
+		zeros++
+	}
+	data := append(make([]byte, zeros), bigi.Bytes()...)
 
 	if len(data) < SIZE+2 {
 		return Integrated{}, fmt.Errorf("invalid address size: %d", len(data))
@@ -164,7 +170,14 @@ func (a Integrated) String() string {
 		return config.DELEGATE_ADDRESS_PREFIX + strconv.FormatUint(a.Addr.DecodeDelegateId(), 10)
 	}
 
-	return config.WALLET_PREFIX + big.NewInt(0).SetBytes(a.bytes()).Text(36)
+	b := a.bytes()
+	// big.Int drops leading zero bytes: keep each of them as a leading '0' digit,
+	// otherwise the text cannot be read back (see FromString)
+	zeros := 0
+	for zeros < len(b) && b[zeros] == 0 {
+		zeros++
+	}
+	return config.WALLET_PREFIX + strings.Repeat("0", zeros) + big.NewInt(0).SetBytes(b).Text(36)
 }
 
 func (a *Integrated) Marshal() ([]byte, error) {
